@@ -43,9 +43,29 @@ pub fn gen_payload(rng: &mut Rng, tag: &str, allow_binary: bool, newline_termina
             7 if allow_binary => vec![0, 1, 2, b'\r', b'\n', 0xff, 0xc3, 0x28, b'\n'],
             _ => format!("{} fd{} #{} tail without newline", tag, fd, s).into_bytes(),
         };
-        outs.push(OutStep { fd, hex: hex(&bytes), pause_ms: 0 });
+        outs.push(OutStep { fd, hex: hex(&bytes), pause_ms: 0, close: false });
     }
+    close_one_stream_early(rng, &mut outs);
     outs
+}
+
+/// One script in six: the child closes one of its two streams part-way and goes on with the other.
+pub fn close_one_stream_early(rng: &mut Rng, outs: &mut Vec<OutStep>) {
+    if outs.len() >= 2 && rng.chance(1, 6) {
+        let f = if rng.chance(1, 2) { 1u8 } else { 2 };
+        let k = rng.below(outs.len());
+        let mut kept: Vec<OutStep> = vec![];
+        for (i, o) in outs.drain(..).enumerate() {
+            if i == k {
+                kept.push(OutStep { fd: f, hex: "-".into(), pause_ms: 0, close: true });
+            }
+            if i >= k && o.fd == f {
+                continue;
+            }
+            kept.push(o);
+        }
+        *outs = kept;
+    }
 }
 
 /// A stalled disk under a chatty group: the first write to some stdout archive takes 4 s; meanwhile a
@@ -77,12 +97,12 @@ fn gen_disk_stall(rng: &mut Rng) -> LogWorldScenario {
                 }
                 v.push(b'\n');
             }
-            outs.push(OutStep { fd: 1, hex: hex(&v), pause_ms: 0 });
+            outs.push(OutStep { fd: 1, hex: hex(&v), pause_ms: 0, close: false });
         }
         for r in 0..rounds {
-            outs.push(OutStep { fd: 1, hex: hex(format!("build@{} fd1 #{} round\n", cf.target, r).as_bytes()), pause_ms: if ti == 0 { 5 } else { 0 } });
+            outs.push(OutStep { fd: 1, hex: hex(format!("build@{} fd1 #{} round\n", cf.target, r).as_bytes()), pause_ms: if ti == 0 { 5 } else { 0 }, close: false });
         }
-        outs.push(OutStep { fd: 1, hex: hex(format!("build@{} fd1 last words\n", cf.target).as_bytes()), pause_ms: 0 });
+        outs.push(OutStep { fd: 1, hex: hex(format!("build@{} fd1 last words\n", cf.target).as_bytes()), pause_ms: 0, close: false });
         script.behav.push(Behav { command: "build".into(), target: cf.target.clone(), outs, code: 0, exit_pause_ms: 0 });
     }
     script.strategy = Strategy::RoundRobin;
@@ -117,8 +137,8 @@ fn gen_log_world(seed: u64, idx: usize) -> LogWorldScenario {
         if real_pause && !outs.is_empty() && rng.chance(1, 2) {
             // a real pause in mid-line against the un-knobbed 500 ms tick
             let k = rng.below(outs.len());
-            outs.insert(k, OutStep { fd: 1, hex: hex(format!("{}@{} held-open ", cf.command, cf.target).as_bytes()), pause_ms: 0 });
-            outs.insert(k + 1, OutStep { fd: 1, hex: hex(b"after the pause\n"), pause_ms: 650 });
+            outs.insert(k, OutStep { fd: 1, hex: hex(format!("{}@{} held-open ", cf.command, cf.target).as_bytes()), pause_ms: 0, close: false });
+            outs.insert(k + 1, OutStep { fd: 1, hex: hex(b"after the pause\n"), pause_ms: 650, close: false });
         }
         script.behav.push(Behav { command: cf.command.clone(), target: cf.target.clone(), outs, code: 0, exit_pause_ms: 0 });
     }
@@ -142,7 +162,7 @@ fn gen_log_world(seed: u64, idx: usize) -> LogWorldScenario {
                 }
                 v.push(b'\n');
             }
-            script.behav[bi].outs.push(OutStep { fd, hex: hex(&v), pause_ms: 0 });
+            script.behav[bi].outs.push(OutStep { fd, hex: hex(&v), pause_ms: 0, close: false });
         }
     }
     if rng.chance(1, 6) && script.behav.len() >= 2 {
@@ -169,7 +189,7 @@ fn gen_log_world(seed: u64, idx: usize) -> LogWorldScenario {
                     }
                     v.push(b'\n');
                 }
-                script.behav[bi].outs.push(OutStep { fd, hex: hex(&v), pause_ms: if k == 0 { 0 } else { 25 } });
+                script.behav[bi].outs.push(OutStep { fd, hex: hex(&v), pause_ms: if k == 0 { 0 } else { 25 }, close: false });
             }
         }
     }
